@@ -4,10 +4,12 @@
 //!   yvx-conform replay <cases.ndjson> --out <file>
 //!   yvx-conform buildinfo
 mod frames;
+mod gen_c09;
 mod gen_color;
 mod gen_geom;
 mod gen_math;
 mod gen_meta;
+mod gen_pointwise;
 mod gen_safety;
 mod replay;
 mod gen_tf;
@@ -88,6 +90,8 @@ fn main() {
                 "C03" => gen_tf::gen_c03(&mut sh, &o),
                 "C10" => gen_tf::gen_c10(&mut sh, &o),
                 "C14" => gen_meta::gen_c14(&mut sh, &o),
+                "C09" => gen_c09::gen_c09(&mut sh, &o),
+                "C11" => gen_pointwise::gen_c11(&mut sh, &o),
                 "C13" => gen_safety::gen_c13(&mut sh, &o, None),
                 "GEOM" => gen_geom::gen_geom(&mut sh, &o, &o.plan),
                 "C12DATA" => gen_geom::gen_c12_data(&mut sh, &o),
